@@ -50,6 +50,18 @@ class Adapter:
     def step_bound(self, inst: dict) -> Optional[int]:
         return None
 
+    def variants(self) -> List[dict]:
+        """Environment-level configurations (constructor / generator options) to exercise; each is passed
+        to `make_env(**var)` and to `gen_instance(..., **var)`.  Default: only the default configuration."""
+        return [{}]
+
+    def env_for(self, var: dict):
+        key = repr(sorted(var.items()))
+        cache = self.__dict__.setdefault("_envs", {})
+        if key not in cache:
+            cache[key] = self.make_env(**var)
+        return cache[key]
+
     def sizes(self, tier: str) -> List[int]:
         return [2, 3, 5, 8] if tier == "quick" else [1, 2, 3, 5, 8, 13, 20]
 
@@ -73,9 +85,18 @@ def steer(ad: Adapter, ctx, insts: List[dict]):
     return [ad.steering_prefix(ctx.rng, i) for i in insts]
 
 
-def make_batch(ad: Adapter, ctx, n: int, B: int) -> List[dict]:
+def pick_env(ctx, ad: Adapter):
+    """choose one environment-level configuration for the next batch"""
+    var = ctx.rng.choice(ad.variants())
+    if var:
+        ctx.count(f"{ad.name}.variant=" + ",".join(f"{k}={v}" for k, v in sorted(var.items())))
+    return ad.env_for(var), var
+
+
+def make_batch(ad: Adapter, ctx, n: int, B: int, var: Optional[dict] = None) -> List[dict]:
     kinds = ad.kinds()
-    return [ad.gen_instance(ctx.rng, n, ctx.rng.choice(kinds)) for _ in range(B)]
+    var = var or {}
+    return [ad.gen_instance(ctx.rng, n, ctx.rng.choice(kinds), **var) for _ in range(B)]
 
 
 def compare_trace(ctx, ad: Adapter, inst: dict, actions: List[int], masks: List[str], done: List[int],
@@ -131,13 +152,13 @@ def run_batch(ctx, ad: Adapter, env, insts: List[dict], extra_pad: int = 0, forc
 # C01 + the model tie: episodes through the real mask, model trace compared, Spec judged
 # ------------------------------------------------------------------------------------------------
 def check_feasibility(ctx, ad: Adapter, episodes_quick: int = 150, episodes_thorough: int = 3000):
-    env = ad.make_env()
     total = ctx.budget(episodes_quick, episodes_thorough)
     done_eps = 0
     while done_eps < total:
+        env, var = pick_env(ctx, ad)
         n = ctx.rng.choice(ad.sizes(ctx.tier))
         B = ctx.rng.choice([1, 2, 4, 6])
-        insts = make_batch(ad, ctx, n, B)
+        insts = make_batch(ad, ctx, n, B, var)
         try:
             td0, ep = run_batch(ctx, ad, env, insts, forced=steer(ad, ctx, insts), strict_forced=False)
         except EpisodeFailed:
@@ -165,13 +186,13 @@ def check_feasibility(ctx, ad: Adapter, episodes_quick: int = 150, episodes_thor
 # C02: no dead ends, done is stable, step bound
 # ------------------------------------------------------------------------------------------------
 def check_termination(ctx, ad: Adapter, episodes_quick: int = 150, episodes_thorough: int = 3000):
-    env = ad.make_env()
     total = ctx.budget(episodes_quick, episodes_thorough)
     done_eps = 0
     while done_eps < total:
+        env, var = pick_env(ctx, ad)
         n = ctx.rng.choice(ad.sizes(ctx.tier))
         B = ctx.rng.choice([1, 2, 3, 5, 8])
-        insts = make_batch(ad, ctx, n, B)
+        insts = make_batch(ad, ctx, n, B, var)
         pad = ctx.rng.choice([0, 0, 1, 3])
         try:
             td0, ep = run_batch(ctx, ad, env, insts, extra_pad=pad, nonterm_is_violation=True)
@@ -214,32 +235,46 @@ def check_termination(ctx, ad: Adapter, episodes_quick: int = 150, episodes_thor
 # C03: reward equals the objective
 # ------------------------------------------------------------------------------------------------
 def check_reward(ctx, ad: Adapter, episodes_quick: int = 150, episodes_thorough: int = 3000):
-    env = ad.make_env()
     total = ctx.budget(episodes_quick, episodes_thorough)
     done_eps = 0
     while done_eps < total:
+        env, var = pick_env(ctx, ad)
         n = ctx.rng.choice(ad.sizes(ctx.tier))
         B = ctx.rng.choice([1, 2, 4])
-        insts = make_batch(ad, ctx, n, B)
+        insts = make_batch(ad, ctx, n, B, var)
         try:
             td0, ep = run_batch(ctx, ad, env, insts)
         except EpisodeFailed:
             done_eps += B
             continue
         acts = rl.actions_tensor(ep)
+        inexact = False
         try:
             real = ad.real_reward_ticks(env, ep.td, acts)
         except ValueError as e:
-            ctx.note(f"{ad.name}: reward not on the exact grid ({e}); case skipped")
-            ctx.count("inexact-skipped")
-            done_eps += B
-            continue
+            # the real reward of an exact-stream instance is off the 2^-20 grid: judge it against the Spec
+            # objective with a float tolerance instead of skipping it (a precision-losing rewrite of the
+            # reward lands here)
+            inexact = True
+            ctx.count("inexact-reward-batches")
+            real = [float(v) * rl.SCALE for v in env._get_reward(ep.td, acts).flatten().tolist()]
         lines = [ad.line("episode", insts[r], ep.actions[r]) for r in range(B)]
         replies = ctx.driver.ask_many(lines)
         for r in range(B):
             f = compare_trace(ctx, ad, insts[r], ep.actions[r], ep.masks[r], ep.done[r], replies[r], "C03 stream", trace=False)
             ctx.case((ad.name, repr(insts[r]), tuple(ep.actions[r])), nontrivial=real[r] != 0)
             ctx.count(f"{ad.name}.n={n}")
+            if inexact:
+                ref = ad.reward_sign * int(f["obj"]) if "obj" in f else (int(f["reward"]) if "reward" in f else None)
+                tol = max(4.0, abs(ref) * 2.0 ** -18) if ref is not None else None
+                if ref is not None and abs(real[r] - ref) > tol:
+                    ctx.violation(f"{ad.name}:reward-ne-objective",
+                                  "reward of the real env (not exactly representable) differs from the Spec objective beyond float tolerance",
+                                  {"inst": insts[r], "actions": ep.actions[r], "real_reward": real[r] / rl.SCALE,
+                                   "spec_objective": int(f["obj"]) / rl.SCALE if "obj" in f else None, "lean_line": lines[r]})
+                else:
+                    ctx.count(f"{ad.name}.reward-inexact-but-within-tolerance")
+                continue
             if "reward" in f and int(f["reward"]) != real[r]:
                 ctx.disagreement(f"{ad.name}: reward differs",
                                  {"inst": insts[r], "actions": ep.actions[r], "real": real[r], "model": f["reward"]})
@@ -257,12 +292,12 @@ def check_reward(ctx, ad: Adapter, episodes_quick: int = 150, episodes_thorough:
 # C04: independence of batch-mates and of padding
 # ------------------------------------------------------------------------------------------------
 def check_batch_independence(ctx, ad: Adapter, groups_quick: int = 40, groups_thorough: int = 800):
-    env = ad.make_env()
     total = ctx.budget(groups_quick, groups_thorough)
     for g in range(total):
+        env, var = pick_env(ctx, ad)
         n = ctx.rng.choice(ad.sizes(ctx.tier))
         B = ctx.rng.choice([2, 3, 5, 8])
-        insts = make_batch(ad, ctx, n, B)
+        insts = make_batch(ad, ctx, n, B, var)
         if ctx.rng.random() < 0.4:  # copies of itself among the batch-mates
             insts[ctx.rng.randrange(B)] = insts[0]
         pad = ctx.rng.choice([0, 1, 2, 4])
@@ -321,12 +356,12 @@ def check_batch_independence(ctx, ad: Adapter, groups_quick: int = 40, groups_th
 # C05: the mask hides no feasible solution (tiny instances, exhaustive)
 # ------------------------------------------------------------------------------------------------
 def check_completeness(ctx, ad: Adapter, insts_quick: int = 20, insts_thorough: int = 200, nmax_quick=4, nmax_thorough=5):
-    env = ad.make_env()
     total = ctx.budget(insts_quick, insts_thorough)
     nmax = ctx.budget(nmax_quick, nmax_thorough)
     for g in range(total):
+        env, var = pick_env(ctx, ad)
         n = ctx.rng.randint(1, nmax)
-        inst = ad.gen_instance(ctx.rng, n, ctx.rng.choice(ad.kinds()))
+        inst = ad.gen_instance(ctx.rng, n, ctx.rng.choice(ad.kinds()), **var)
         cands = list(ad.enumerate_solutions(inst))
         lines = [ad.line("episode", inst, c) for c in cands]
         replies = ctx.driver.ask_many(lines)
@@ -412,13 +447,13 @@ def corruptions(ad: Adapter, rng, inst: dict, sol: List[int]) -> List[tuple]:
 
 
 def check_checker(ctx, ad: Adapter, episodes_quick: int = 100, episodes_thorough: int = 2000):
-    env = ad.make_env()
     total = ctx.budget(episodes_quick, episodes_thorough)
     done_eps = 0
     while done_eps < total:
+        env, var = pick_env(ctx, ad)
         n = ctx.rng.choice(ad.sizes(ctx.tier))
         B = ctx.rng.choice([1, 2, 4])
-        insts = make_batch(ad, ctx, n, B)
+        insts = make_batch(ad, ctx, n, B, var)
         try:
             td0, ep = run_batch(ctx, ad, env, insts, extra_pad=ctx.rng.choice([0, 0, 2]))
         except EpisodeFailed:
@@ -433,6 +468,7 @@ def check_checker(ctx, ad: Adapter, episodes_quick: int = 100, episodes_thorough
                 cases.append((insts[r], lab, sol))
         lines = [ad.line("check", i, s) for (i, lab, s) in cases]
         replies = ctx.driver.ask_many(lines)
+        solo_verdicts = []
         for (inst, lab, sol), rep in zip(cases, replies):
             f = parse_fields(rep)
             td1 = env.reset(ad.to_td([inst]))
@@ -456,4 +492,31 @@ def check_checker(ctx, ad: Adapter, episodes_quick: int = 100, episodes_thorough
                               {"inst": inst, "label": lab, "actions": sol})
             ctx.sample({"env": ad.name, "label": lab, "inst": inst, "actions": sol,
                         "real_checker_accepts": acc, "spec_feasible": f.get("feas")}, cap=4)
+            solo_verdicts.append(acc)
+        # the checker is called on whole batches by `get_reward`: a batch must be accepted iff every one of
+        # its rows is accepted on its own (a batch-global shortcut inside the checker breaks this)
+        by_len: Dict[int, List[int]] = {}
+        for k, (inst, lab, sol) in enumerate(cases):
+            by_len.setdefault(len(sol), []).append(k)
+        for L, idx in by_len.items():
+            if len(idx) < 2 or L == 0:
+                continue
+            for _ in range(2):
+                grp = ctx.rng.sample(idx, min(len(idx), ctx.rng.choice([2, 3, 4])))
+                # prefer compositions with at most one rejected row (the informative ones)
+                rej = [k for k in grp if not solo_verdicts[k]]
+                if len(rej) > 1:
+                    grp = [k for k in grp if solo_verdicts[k]] + rej[:1]
+                    if len(grp) < 2:
+                        continue
+                ctx.rng.shuffle(grp)
+                tdb = env.reset(ad.to_td([cases[k][0] for k in grp]))
+                accb = rl.checker_accepts(env, tdb, torch.tensor([cases[k][2] for k in grp], dtype=torch.long))
+                expect = all(solo_verdicts[k] for k in grp)
+                ctx.count(f"{ad.name}.checker-batch.{'all-accepted' if expect else 'one-rejected'}")
+                if accb != expect:
+                    ctx.violation(f"{ad.name}:checker-batch-differs-from-rows",
+                                  "the checker's verdict on a batch is not the conjunction of its verdicts on the rows",
+                                  {"rows": [{"inst": cases[k][0], "label": cases[k][1], "actions": cases[k][2],
+                                             "solo_accepts": solo_verdicts[k]} for k in grp], "batch_accepts": accb})
         done_eps += B
